@@ -17,14 +17,6 @@ PID = 'C20'
 SHORT = 'authenticate'
 
 ENV = '''
-#[derive(Debug, Clone, Copy, PartialEq, Eq, Structural)]
-pub struct StatusCode { pub bits: u32 }
-impl StatusCode {
-    pub const BadIdentityTokenInvalid: StatusCode = StatusCode { bits: 0x8020_0000 };
-    pub const BadIdentityTokenRejected: StatusCode = StatusCode { bits: 0x8021_0000 };
-    pub const BadUserAccessDenied: StatusCode = StatusCode { bits: 0x801F_0000 };
-    pub const BadTcpEndpointUrlInvalid: StatusCode = StatusCode { bits: 0x8083_0000 };
-}
 // ---- std String / &str operations vstd does not specify (std semantics assumed)
 pub assume_specification<'a> [<String as PartialEq<&str>>::eq] (a: &String, b: &&str) -> (r: bool) ensures r == (a@ == b@);
 pub assume_specification<'a> [<String as PartialEq<&str>>::ne] (a: &String, b: &&str) -> (r: bool) ensures r == (a@ != b@);
@@ -52,6 +44,9 @@ impl UAString {
     pub fn as_ref(&self) -> (r: &str) ensures r@ == self.text() { unimplemented!() }
     #[verifier::external_body]
     pub fn is_null(&self) -> (r: bool) ensures r == (self.opt() is None) { unimplemented!() }
+    // is_empty: null or the empty text
+    #[verifier::external_body]
+    pub fn is_empty(&self) -> (r: bool) ensures r == (self.text().len() == 0) { unimplemented!() }
 }
 impl vstd::std_specs::cmp::PartialEqSpecImpl for UAString {
     open spec fn obeys_eq_spec() -> bool { true }
@@ -324,6 +319,7 @@ def build(manifest):
     a = Asm()
     a.add('use vstd::prelude::*;\n' + macro_def(lb, 'trace_read_lock') + '\nverus! {\nglobal size_of usize == 8;\n', 'prelude', 'env')
     a.add(norm_vis(types), 'types', 'env')
+    a.add(status_code_struct(manifest), 'status codes', 'env')      # every status code of the real file (D14)
     a.add(ENV, 'env', 'env')
     a.add(SUPPORTS_SPEC, 'spec', 'env')
     a.add('impl ServerUserToken {')
